@@ -7,3 +7,4 @@ import AutomataVerif.Props.C19d
 import AutomataVerif.Props.C19e
 import AutomataVerif.Props.C19f
 import AutomataVerif.Props.C19g
+import AutomataVerif.Props.C19h
